@@ -21,7 +21,7 @@ fn norm_errs(errs: &J) -> Vec<J> {
 #[derive(Clone, Copy, Debug)]
 pub struct Mask {
     pub out: bool,
-    pub errs: &'static str, // "all" | "ifok" | "last" | "none"
+    pub errs: &'static str, // "all" | "ifok" | "last" | "spans" | "none"
     pub obs: &'static str,  // "none" | "ext" | "insp" | "all"
     pub insp: bool,
 }
@@ -41,7 +41,10 @@ pub fn mask_for(prop: &str) -> Mask {
         // memoization is judged against the memo-free grammar on the real crate (real_asserts);
         // the model contributes acceptance and outputs
         "C11" => Mask { out: true, errs: "none", obs: "none", insp: false },
-        // C08, C10, C12, C13, C15, C16, C17: acceptance, outputs, errors
+        // representation independence is judged on the real crate, kind against kind (real_asserts);
+        // the model contributes acceptance and outputs per kind
+        "C10" => Mask { out: true, errs: "none", obs: "none", insp: false },
+        // C08, C12, C13, C15, C16, C17: acceptance, outputs, errors
         _ => Mask { out: true, errs: "all", obs: "none", insp: false },
     }
 }
@@ -78,6 +81,7 @@ pub fn proj_mask(m: &Mask, mode: &str, o: &J) -> J {
                 J::Null
             }
         }
+        "spans" => json!(errs.iter().map(|e| json!([e["s"], e["e"]])).collect::<Vec<_>>()),
         "last" => {
             if ok || panic {
                 J::Null
@@ -180,6 +184,36 @@ pub fn unroll(j: &J, k: usize) -> J {
     map_kids(j, &|x| unroll(x, k))
 }
 
+/// offset of the input kind -> token index (the documented re-basing of spans)
+pub fn off_to_idx(o: usize, kind: &str, toks: &[char]) -> i64 {
+    match kind {
+        "str" => crate::run::str_offsets(toks).iter().position(|x| *x == o).map_or(-1, |i| i as i64),
+        "mapped" | "mstream" | "iter" => {
+            if o == 3 * toks.len() {
+                toks.len() as i64
+            } else if o % 3 == 1 {
+                (o / 3) as i64
+            } else if o % 3 == 2 {
+                (o / 3 + 1) as i64
+            } else {
+                -1
+            }
+        }
+        _ => o as i64,
+    }
+}
+fn rebase_val(v: &J, kind: &str, toks: &[char]) -> J {
+    match v {
+        J::Array(a) if !a.is_empty() => match a[0].as_str() {
+            Some("Sp") | Some("Sl") => json!([a[0], off_to_idx(a[1].as_u64().unwrap_or(0) as usize, kind, toks), off_to_idx(a[2].as_u64().unwrap_or(0) as usize, kind, toks)]),
+            Some("W") => json!(["W", rebase_val(&a[1], kind, toks), off_to_idx(a[2].as_u64().unwrap_or(0) as usize, kind, toks),
+                                off_to_idx(a[3].as_u64().unwrap_or(0) as usize, kind, toks), a[4], a[5]]),
+            _ => J::Array(a.iter().map(|x| rebase_val(x, kind, toks)).collect()),
+        },
+        _ => v.clone(),
+    }
+}
+
 pub struct ReplayStats {
     pub cases: usize,
     pub behaviours: usize,
@@ -195,7 +229,7 @@ pub struct ReplayStats {
 }
 
 /// real-only assertions that belong to a property (things the model cannot see)
-fn real_asserts(prop: &str, case: &Case, real: &Obs, all: &dyn Fn(&str, &str, &str) -> Option<Obs>) -> Option<String> {
+pub fn real_asserts(prop: &str, case: &Case, real: &Obs, all: &dyn Fn(&str, &str, &str) -> Option<Obs>) -> Option<String> {
     match prop {
         "C03" => {
             // output/error consistency of the real ParseResult
@@ -294,6 +328,36 @@ fn real_asserts(prop: &str, case: &Case, real: &Obs, all: &dyn Fn(&str, &str, &s
                 }
             } else if po.errs != real.errs {
                 return Some(format!("errors differ from the plain grammar {plain}: {:?} vs {:?}", real.errs, po.errs));
+            }
+            None
+        }
+        "C10" => {
+            if real.panic.is_some() {
+                return None;
+            }
+            // a Stream pulls every item at most once, in order
+            if real.pulls.iter().enumerate().any(|(i, p)| i != *p) {
+                return Some(format!("Stream pulled items out of order or twice: {:?}", real.pulls));
+            }
+            if case.kind == "slice" {
+                return None;
+            }
+            // same acceptance, output and error positions as the plain slice, modulo span re-basing
+            let r = all("slice", &case.ety, &case.mode)?;
+            if r.panic.is_some() {
+                return None;
+            }
+            if r.ok != real.ok {
+                return Some(format!("{} accepts={} but slice accepts={}", case.kind, real.ok, r.ok));
+            }
+            let a = rebase_val(&real.out, &case.kind, &case.inp);
+            let b = rebase_val(&r.out, "slice", &case.inp);
+            if a != b {
+                return Some(format!("output under {} is {} but {} under slice (spans re-based to token indices)", case.kind, a, b));
+            }
+            let pos = |o: &Obs, k: &str| o.errs.iter().map(|e| (off_to_idx(e.s, k, &case.inp), off_to_idx(e.e, k, &case.inp))).collect::<Vec<_>>();
+            if pos(real, &case.kind) != pos(&r, "slice") {
+                return Some(format!("error positions under {} are {:?} but {:?} under slice", case.kind, pos(real, &case.kind), pos(&r, "slice")));
             }
             None
         }
